@@ -508,5 +508,66 @@ def PbReq.toReq (r : PbReq) : Sub.Req :=
   { hasSubscribe := r.hasSubscribe, prefixNil := r.prefixNil, target := r.target, mode := r.mode,
     updatesOnly := r.updatesOnly, subs := r.subs.map (fun q => { path := q }) }
 
+/-! ## 9. Session ends and restarts (`manager.handleUpdates` returning, `manager.monitor`)
+
+A target's session ends whenever `sc.Recv()` fails — a transport error, the target closing the
+stream itself (`io.EOF`), the receive timeout or a forced reconnect cancelling the context:
+```go
+resp, err := sc.Recv()
+...
+if err != nil {
+    if m.reset != nil { m.reset(ta.name) }      // = cache.Reset(name) in the collector
+    return err
+}
+```
+`monitor` then records the error (`defer … m.connectError(ta.name, err)` = `cache.ConnectError`, also
+after a failed dial, where no session ever started) and `retryMonitor` subscribes again: the
+target streams its — possibly smaller — state anew, `m.connect(name)` before its first response
+(the `first` flag of `Step.recv`).
+
+Added beside `Step` / `Sys.run` (which stay as they are: `Sys.runR_lift`). -/
+
+/-- `m.reset(name)` = `cache.Reset(name)` at clock reading `now`; its events (metadata refresh,
+one `name/<root>/*` delete per top-level subtree) reach the subscribers -/
+def Sys.reset (enc : String → String) (now : Int) (s : Sys) (name : String) : Sys :=
+  if s.crashed then s else
+  let r := s.sub.cache.reset enc name now
+  { s with sub := Sub.feed { s.sub with cache := r.1 } r.2 }
+
+/-- `m.connectError(name, err)` = `cache.ConnectError(name, err)`; `msg` = `err.Error()` -/
+def Sys.connectError (enc : String → String) (now : Int) (s : Sys) (name msg : String) : Sys :=
+  if s.crashed then s else
+  let r := s.sub.cache.connectError enc name msg now
+  { s with sub := Sub.feed { s.sub with cache := r.1 } r.2 }
+
+/-- one global step of a run with session restarts -/
+inductive StepR where
+  | step (st : Step)
+  /-- the session of target `name` ends (`handleUpdates`: `Recv` failed, for whatever reason) -/
+  | reset (name : String) (now : Int)
+  /-- `monitor` records why the attempt ended (any time: also after a failed dial) -/
+  | connectError (name msg : String) (now : Int)
+deriving Repr, Inhabited
+
+def Sys.stepR (enc : String → String) (s : Sys) : StepR → Sys
+  | .step st => s.step enc st
+  | .reset name now => s.reset enc now name
+  | .connectError name msg now => s.connectError enc now name msg
+
+def Sys.runR (enc : String → String) (s : Sys) (steps : List StepR) : Sys := steps.foldl (Sys.stepR enc) s
+
+/-- target `name`'s session is over and the manager starts the next one: what `handleUpdates` and
+`monitor` do between the last response of one session and the first of the next -/
+def restartSteps (name : String) (now : Int) (msg : String) (now' : Int) : List StepR :=
+  [.reset name now, .connectError name msg now']
+
+/-- a run without restarts is a run of `Sys.run` -/
+theorem Sys.runR_lift (enc : String → String) (s : Sys) (steps : List Step) :
+    s.runR enc (steps.map StepR.step) = s.run enc steps := by
+  unfold Sys.runR Sys.run
+  rw [List.foldl_map]
+  rfl
+
+
 end Pipeline
 end Gnmi
